@@ -51,6 +51,9 @@ theorem toNat_oct (v : Nat) : (oct v).toNat = v % 256 := by
   unfold oct
   simp [UInt8.toNat_ofNat']
 
+theorem oct_eq_of_nat (b : UInt8) {n : Nat} (h : n % 256 = b.toNat) : oct n = b := by
+  unfold oct; rw [h]; exact UInt8.ofNat_toNat
+
 theorem beBytes_length (n v : Nat) : (beBytes n v).length = n := by
   induction n generalizing v with
   | zero => rfl
